@@ -2,12 +2,12 @@
 # usage: tools/try_mutant.sh <patch.diff> <C17|C18|C19> [budget_s] [tier]
 # Applies a seeded change to /repo, runs the check, and ALWAYS restores /repo.
 set -u
-patch="$(readlink -f "$1")"; prop="$2"; budget="${3:-60}"; tier="${4:-quick}"
+here="$(cd "$(dirname "$(readlink -f "$0")")/.." && pwd)"; patch="$(readlink -f "$1")"; prop="$2"; budget="${3:-60}"; tier="${4:-quick}"
 cd /repo || exit 9
 if [ -n "$(git status --porcelain --untracked-files=no)" ]; then echo "repo not clean"; exit 9; fi
 trap 'git -C /repo checkout -- . ; echo "[repo restored: $(git -C /repo status --porcelain --untracked-files=no | wc -l) modified]"' EXIT
 git apply "$patch" || { echo "patch does not apply"; exit 8; }
-export VERIF_EVIDENCE_DIR="${VERIF_EVIDENCE_DIR:-$(cd "$(dirname "$0")/.." && pwd)/.cache/evidence-scratch}"
+export VERIF_EVIDENCE_DIR="${VERIF_EVIDENCE_DIR:-$here/.cache/evidence-scratch}"
 cd /verif
 VERIF_BUDGET_S="$budget" ./run "$prop" --tier "$tier" 2>&1 | grep -v "^KNOWN-FINDING" | cut -c1-400 | tail -12
 echo "check exit=${PIPESTATUS[0]}"
